@@ -116,5 +116,5 @@ func verifH_C15_verdict_alone() {
 }
 
 func verifCompileDefault(expr string) (RegexMatcher, error) {
-	return regexp.Compile(intoGoRegexp(expr))
+	return regexp.Compile(expr)
 }
